@@ -48,7 +48,8 @@ CHECKS = {
         "the queried ordered pair (a,b) is symbolic, so one solver query per graph decides Dominates(a,b) == (every path from the region root to b passes through a) for all pairs; "
         "idom/dominee/pre/post-order consistency is asserted against the same path-search definition.",
    note="Graph shapes are enumerated by forking (each fork solver-checked); thorough adds 5 blocks with out-degree <= 2. Precondition assumed: all blocks reachable from entry or recover, "
-        "recover region disjoint. CFGs the builder actually produces (clause b) are not yet covered by an SMT path query.",
+        "recover region disjoint. Clause (b): for every function of the IR corpus / generated programs / selected repository packages (naive and lifted, <= 16 blocks quick, 40 thorough) the real Dominates/Idom "
+        "are compared with bounded path-existence SMT queries for every ordered block pair.",
    technique="bounded symbolic execution of go/ssa + SMT (symbolic query pair), native replay of models",
    design="3/C14"),
  "C17": dict(
@@ -75,6 +76,16 @@ CHECKS = {
    note="Finite vocabulary explored exhaustively by forking. Outside: directory walk and TOML decoding (parseConfigs), rendering of stylish/JSON/SARIF (sarifFormatter.Format has an empty body in the symbolic run), -show-ignored.",
    technique="bounded symbolic execution of go/ssa + SMT feasibility, native replay of models",
    design="3/C11"),
+ "C02": dict(
+   level="model_checking",
+   text="IR is built natively by go/ir from /repo for a hand-written corpus, a bounded-exhaustive family of generated programs (escapes, loops, break/continue/goto, early returns) and selected repository packages, "
+        "in 5 builder modes. Per function (<= 24 blocks quick, 60 thorough): dominance is decided by bounded path-existence SMT queries for every ordered block pair, def-dominates-use (incl. phi edges at the end of the "
+        "predecessor) is read off that relation; operand/result typing is decided by the solver's sort checker over an encoding with one sort per Go type and one typed function per instruction rule; "
+        "terminator/phi-arity/pred-succ/operand-referrer clauses are checked as preconditions of the encoding.",
+   note="Programs: corpus + generator + selected packages (thorough: more repository packages and a std subset), not all type-correct packages. Typing relaxations calibrated on the pinned tree: comparison operands may be "
+        "mutually assignable; operands involving type parameters skipped. Entry-block definitions count as available in the recover region. All modes build serially (parallel building is C18, n/a).",
+   technique="SMT path-existence queries + solver sort checking over natively built IR",
+   design="3/C02"),
 }
 
 NA = {
